@@ -471,15 +471,15 @@ Proof.
   - intros NM. destruct (Z.eq_dec z 0) as [E|E]; [exact E|]. exfalso. apply NM. apply A. lia.
 Qed.
 
-Theorem user_exists_confined db fs vb domain local :
-  let o := user_exists db fs vb domain local in
+Theorem user_exists_with_confined vg fs vb local :
+  let o := user_exists_with vg fs vb local in
   confined (probes o) /\
   (forall n, userdir o = Some n -> n = local /\ component local /\ fs local = EDir).
 Proof.
-  cbv zeta. unfold user_exists, user_exists_with, confined. destruct (refused local) eqn:R.
+  cbv zeta. unfold user_exists_with, confined. destruct (refused local) eqn:R.
   { simpl. split; [constructor|discriminate]. }
   apply refused_false in R.
-  destruct (vget_dir db domain) as [e|[d|]]; try (simpl; split; [constructor|discriminate]).
+  destruct vg as [e|[d|]]; try (simpl; split; [constructor|discriminate]).
   destruct (dom_errno d) as [e|].
   { destruct (mem e VP_DOM_ERR); [simpl; split; [constructor|discriminate]|].
     destruct (mem e VP_DOM_ABSENT); [simpl; split; [constructor|discriminate]|].
@@ -487,6 +487,12 @@ Proof.
   split; [now apply in_domain_confined|].
   intros n H. apply in_domain_userdir in H. tauto.
 Qed.
+
+Theorem user_exists_confined db fs vb domain local :
+  let o := user_exists db fs vb domain local in
+  confined (probes o) /\
+  (forall n, userdir o = Some n -> n = local /\ component local /\ fs local = EDir).
+Proof. apply user_exists_with_confined. Qed.
 
 Lemma firstn_In' {A} (x : A) n l : In x (firstn n l) -> In x l.
 Proof.
